@@ -299,6 +299,7 @@ def main(argv):
     ap.add_argument('--keep', action='store_true')
     ap.add_argument('--replay')
     ap.add_argument('--no-evidence', action='store_true')
+    ap.add_argument('--trace', action='store_true', help='debug: print counter-model tails of failed obligations')
     a = ap.parse_args(argv)
     import verdict
     return verdict.run_property(a)
